@@ -398,6 +398,10 @@ Inductive Grounded (ps : list procdef) : procdef -> Prop :=
     Grounded ps p.
 Definition ProcsGrounded (ps : list procdef) : Prop := forall p, In p ps -> Grounded ps p.
 
+(* no provider name of a top-level process is the bare keyword self *)
+Definition providers_named (ps : list procdef) : Prop :=
+  forall p n, In p ps -> In n (pr_providers p) -> ~ (is_self n = true /\ ident n = "").
+
 Section Program.
 Variable teq : tenv -> sty -> sty -> Prop.
 
@@ -436,7 +440,10 @@ Record ProgOKe (pe : program) : Prop := {
   pk_assumed_used : forall x, In x (map ident (p_assumed pe)) ->
                     In x (flat_map (fun p => map ident (proc_uses p)) (p_procs pe));
   (* the processes do not use each other cyclically *)
-  pk_acyclic : deps_acyclic (p_procs pe) = true
+  pk_acyclic : deps_acyclic (p_procs pe) = true;
+  (* the bare keyword `self` is not the name of a top-level process (the processes made for `exec`
+     are self-marked but carry a generated identifier) *)
+  pk_providers_named : providers_named (p_procs pe)
 }.
 
 Definition ProgOK (p : program) : Prop := exists pe, elab_program p pe /\ ProgOKe pe.
